@@ -117,6 +117,70 @@ func HarnessPanicHTTP() {
 	verif.Reach("panic-http-done")
 }
 
+// HarnessPanicBatch: an HTTP batch of three elements, each an ordinary call, a
+// panicking call, a panicking notification or an ordinary notification. The
+// panic of one element is confined to that element: the reply is one JSON array
+// with exactly one response per id-bearing element, in order; ordinary calls get
+// their results, panicking calls an error that mentions the panic.
+func HarnessPanicBatch() {
+	h := &H{kind: 0, msg: verif.String("msg", 2)}
+	srv := jsonrpc.NewServer()
+	srv.Register("H", h)
+	x := verif.Int("x")
+	const n = 3
+	kinds := make([]int, n) // 0 Fine call, 1 Boom call, 2 Boom notification, 3 Fine notification
+	var elems []interface{}
+	var idBearing []int
+	panics := 0
+	for i := 0; i < n; i++ {
+		kinds[i] = verif.Choice("elem"+string(rune('0'+i)), 4)
+		m := map[string]interface{}{"jsonrpc": "2.0", "params": []interface{}{x}}
+		switch kinds[i] {
+		case 0:
+			m["method"], m["id"] = "H.Fine", 10+i
+		case 1:
+			m["method"], m["id"] = "H.Boom", 10+i
+			panics++
+		case 2:
+			m["method"] = "H.BoomNotif"
+			panics++
+		case 3:
+			m["method"] = "H.Fine"
+		}
+		if kinds[i] < 2 {
+			idBearing = append(idBearing, i)
+		}
+		elems = append(elems, m)
+	}
+	verif.Assume(panics > 0)
+	body, _ := json.Marshal(elems)
+	var out bytes.Buffer
+	srv.HandleRequest(context.Background(), bytes.NewReader(body), &out)
+	verif.Assert(!verif.Crashed(), "process-survives")
+	if len(idBearing) == 0 {
+		verif.Assert(len(bytes.TrimSpace(out.Bytes())) == 0, "batch-of-notifications-gets-no-reply")
+	} else {
+		var rs []reply
+		verif.Assert(json.Unmarshal(out.Bytes(), &rs) == nil, "batch-reply-is-one-json-array")
+		verif.Assert(len(rs) == len(idBearing), "one-response-per-id-bearing-element")
+		for k, i := range idBearing {
+			if k >= len(rs) {
+				break
+			}
+			id, _ := rs[k].ID.(float64)
+			verif.Assert(id == float64(10+i), "responses-in-request-order")
+			if kinds[i] == 0 {
+				verif.Assert(rs[k].Error == nil && rs[k].Result != nil && *rs[k].Result == x*2, "sibling-call-in-the-batch-unaffected")
+			} else {
+				verif.Assert(rs[k].Error != nil && strings.Contains(rs[k].Error.Message, "panic"), "panicking-element-gets-error-mentioning-panic")
+			}
+		}
+	}
+	r2, _, ok2 := call(srv, "H.Fine", 2, x)
+	verif.Assert(ok2 && r2.Error == nil && r2.Result != nil && *r2.Result == x*2, "subsequent-call-unaffected")
+	verif.Reach("panic-batch-done")
+}
+
 type C struct {
 	Boom     func(a int) (int, error)
 	Fine     func(a int) (int, error)
